@@ -41,4 +41,5 @@ Produced by independent sub-agents (each saw only the property record, a scratch
 |---|---|---|---|---|---|
 """
 open(f'{V}/seeded/RESULTS.md', 'w').write(hdr + '\n'.join(rows) + '\n')
-print(f'{n_det} of {len(ids)} detected; {sum(1 for i in ids if str(notes.get(i, '')).startswith('missed'))} were missed at first')
+n_missed = sum(1 for i in ids if str(notes.get(i, '')).startswith('missed'))
+print(f'{n_det} of {len(ids)} detected; {n_missed} were missed at first')
